@@ -24,6 +24,9 @@ pub struct Gen<'a> {
     pub rng: &'a mut StdRng,
     /// real OS: include `exec utility`, no `tick` (a built-in of the simulated test bed)
     pub real: bool,
+    /// percentage of leaves that are planted failing commands `fail c` (0: none; the
+    /// random stream is then exactly the one of G07)
+    pub fail: u32,
 }
 
 fn leaf(k: &str, n: i64, s: &str) -> Node {
@@ -32,6 +35,11 @@ fn leaf(k: &str, n: i64, s: &str) -> Node {
 
 impl Gen<'_> {
     fn gen_leaf(&mut self, c: Ctx) -> Node {
+        if self.fail > 0 && self.rng.gen_range(0..100) < self.fail {
+            // the "shall exit" categories end the run: rarer
+            let cats: &[&str] = if self.rng.gen_bool(0.3) { &["sp", "spr", "asg", "asgc", "exp"] } else { &["reg", "cmdsp", "regr", "cmpr"] };
+            return leaf("fail", 0, cats[self.rng.gen_range(0..cats.len())]);
+        }
         loop {
             let x = self.rng.gen_range(0..100);
             let n = match x {
